@@ -116,7 +116,12 @@ def num_add(t, v):
     if isinstance(t, F64) and isinstance(v, int):
         return F64(t.value + float(v))
     if isinstance(t, int) and isinstance(v, F64):
-        return t + int(v.value)
+        if not (-9223372036854775808.0 <= v.value < 9223372036854775808.0):      # also false for NaN
+            raise PatchError("increment-overflow")
+        r = t + int(v.value)
+        if not -(1 << 63) <= r < (1 << 63):
+            raise PatchError("increment-overflow")
+        return r
     raise PatchError("increment-type")
 
 
